@@ -387,6 +387,44 @@ Proof.
   simpl. unfold aexec. rewrite Kb, L. simpl. eexists. splits; reflexivity.
 Qed.
 
+(* ------------------------------------------------------------------ stored entries are stable *)
+
+(** an entry stays what it is, whatever is looked up or stored afterwards *)
+Lemma aexec_lookup_stable c a k r : lookup k c = Some r -> lookup k (snd (aexec c a)) = Some r.
+Proof.
+  intro L. unfold aexec. destruct (a_key a) as [ka|].
+  - destruct (lookup ka c) eqn:Lk; simpl; auto.
+    destruct (a_fresh a) as [o n]. simpl. destruct o; simpl; auto.
+    destruct (a_store a); simpl; auto.
+    destruct (String.eqb k ka) eqn:E; auto.
+    apply String.eqb_eq in E. subst ka. congruence.
+  - destruct (a_fresh a). simpl. auto.
+Qed.
+
+Lemma arun_hit_stable : forall l2 c b k r,
+  lookup k c = Some r -> a_key b = Some k ->
+  nth_error (arun c (l2 ++ [b])) (length l2) =
+  Some {| sr_key := Some k; sr_hit := true; sr_calls := 0; sr_out := a_recheck b r |}.
+Proof.
+  induction l2 as [|x l2 IH]; intros c b k r L K; simpl.
+  - unfold aexec. rewrite K, L. reflexivity.
+  - destruct (aexec c x) as [y c'] eqn:X. simpl. apply IH; auto.
+    pose proof (aexec_lookup_stable c x k r L) as S'. now rewrite X in S'.
+Qed.
+
+(** A (anything) A: what the first allowed look-up of a key stores is what every later look-up of
+    that key receives - after ANY sequence of other look-ups and stores in between *)
+Theorem stored_entry_is_returned_abstract : forall c a l2 b k r,
+  a_key a = Some k -> lookup k c = None -> a_store a = true -> fst (a_fresh a) = OAllow r -> a_key b = Some k ->
+  nth_error (arun c (a :: l2 ++ [b])) (S (length l2)) =
+  Some {| sr_key := Some k; sr_hit := true; sr_calls := 0; sr_out := a_recheck b r |}.
+Proof.
+  intros c a l2 b k r Ka L St F Kb. simpl. destruct (aexec c a) as [y c'] eqn:X. simpl.
+  apply arun_hit_stable; auto.
+  unfold aexec in X. rewrite Ka, L in X. destruct (a_fresh a) as [o n]. simpl in F. subst o.
+  rewrite St in X. injection X as _ <-. simpl. now rewrite String.eqb_refl.
+Qed.
+
 (* ------------------------------------------------------------------ the same for histories of steps *)
 
 Definition key_of (fx : fixes) (H : string -> string) (s : step) : option string :=
@@ -402,6 +440,18 @@ Definition fresh_of (w : world) (s : step) : outcome := fst (exec_fresh w (st_in
 Definition compatible_steps (fx : fixes) (H : string -> string) (w : world) (h : list step) : Prop :=
   forall a b k r, In a h -> In b h -> key_of fx H a = Some k -> key_of fx H b = Some k ->
                   fresh_of w a = OAllow r -> recheck fx (st_inst b) r = fresh_of w b.
+
+(** the same for histories of steps of the real mechanisms' model *)
+Theorem stored_entry_is_returned : forall fx H w c a l2 b k r,
+  key_of fx H a = Some k -> lookup k c = None -> fst (exec_fresh w (st_inst a) (st_req a)) = OAllow r ->
+  key_of fx H b = Some k ->
+  nth_error (run_cached fx H w c (a :: l2 ++ [b])) (S (length l2)) =
+  Some {| sr_key := Some k; sr_hit := true; sr_calls := 0; sr_out := recheck fx (st_inst b) r |}.
+Proof.
+  intros fx H w c a l2 b k r Ka L F Kb. rewrite run_cached_arun. simpl map. rewrite map_app. simpl map.
+  rewrite <- (map_length (areq_of fx H w) l2).
+  apply (stored_entry_is_returned_abstract c (areq_of fx H w a) (map (areq_of fx H w) l2) (areq_of fx H w b) k r); auto.
+Qed.
 
 Lemma compatible_steps_areq fx H w h : compatible_steps fx H w h -> compatible (map (areq_of fx H w) h).
 Proof.
